@@ -512,4 +512,270 @@ theorem bmp_rleLoop_nhs (i : Bmp.Info) (pitch : Int) (st : Settings) (dimx dimy 
             · apply NHs.bind (nh_bmp_absRun8 _ _ _ s2); intro r' s3 _ h3
               exact tail r' s3 h3
 
+
+/-! ## a second logic: "either succeeds or throws a C++ exception" (no `ub`, no `hang`) -/
+
+/-- the property of one result: success (input not longer, same device, taint untouched) or a C++ exception -/
+def GoodE {α} (P : Stop → Prop) (s : St) : Except Stop (α × St) → Prop
+  | .ok (_, s') => s'.rest.length ≤ s.rest.length ∧ s'.dev = s.dev ∧ s'.taint = s.taint
+  | .error e => P e
+
+/-- the stops that are C++ exceptions -/
+def IsErr (e : Stop) : Prop := ∃ k, e = Stop.err k
+/-- `P` admits every C++ exception -/
+def Adm (P : Stop → Prop) : Prop := ∀ k, P (Stop.err k)
+theorem adm_isErr : Adm IsErr := fun k => ⟨k, rfl⟩
+
+def SEs {α} (P : Stop → Prop) (m : M α) (s : St) : Prop := GoodE P s (m s)
+/-- on every device: success or a stop allowed by `P` -/
+def SE {α} (P : Stop → Prop) (m : M α) : Prop := ∀ s, SEs P m s
+/-- on the file device (file name / FILE*) -/
+def SEf {α} (P : Stop → Prop) (m : M α) : Prop := ∀ s, s.dev = .file → SEs P m s
+
+theorem SEs.bind {α β} {P : Stop → Prop} {m : M α} {f : α → M β} {s : St}
+    (hm : SEs P m s) (hf : ∀ a s', m s = .ok (a, s') → s'.rest.length ≤ s.rest.length → s'.dev = s.dev → SEs P (f a) s') : SEs P (m >>= f) s := by
+  unfold SEs at *
+  rw [bind_eq]
+  cases h : m s with
+  | error e => rw [h] at hm; exact hm
+  | ok p =>
+    obtain ⟨a, s'⟩ := p
+    rw [h] at hm
+    have h1 : s'.rest.length ≤ s.rest.length ∧ s'.dev = s.dev ∧ s'.taint = s.taint := hm
+    have h2 := hf a s' h h1.1 h1.2.1
+    show GoodE P s (f a s')
+    cases h3 : f a s' with
+    | error e => rw [h3] at h2; exact h2
+    | ok q =>
+      obtain ⟨b, s''⟩ := q
+      rw [h3] at h2
+      have h4 : s''.rest.length ≤ s'.rest.length ∧ s''.dev = s'.dev ∧ s''.taint = s'.taint := h2
+      show s''.rest.length ≤ s.rest.length ∧ s''.dev = s.dev ∧ s''.taint = s.taint
+      exact ⟨by omega, h4.2.1.trans h1.2.1, h4.2.2.trans h1.2.2⟩
+
+theorem se_bind {α β} {P : Stop → Prop} {m : M α} {f : α → M β} (hm : SE P m) (hf : ∀ a, SE P (f a)) : SE P (m >>= f) :=
+  fun s => SEs.bind (hm s) (fun a s' _ _ _ => hf a s')
+
+theorem sef_bind {α β} {P : Stop → Prop} {m : M α} {f : α → M β} (hm : SEf P m) (hf : ∀ a, SEf P (f a)) : SEf P (m >>= f) :=
+  fun s hs => SEs.bind (hm s hs) (fun a s' _ _ hd => hf a s' (hd.trans hs))
+
+theorem se_pure {α} {P : Stop → Prop} (a : α) : SE P (pure a : M α) := by
+  intro s; show GoodE P s (Except.ok (a, s)); exact ⟨Nat.le_refl _, rfl, rfl⟩
+theorem se_ioErr {α} {P : Stop → Prop} (hP : Adm P) : SE P (ioErr : M α) := by
+  intro s; show GoodE P s (Except.error (Stop.err "io")); exact hP _
+theorem sef_of_se {α} {P : Stop → Prop} {m : M α} (h : SE P m) : SEf P m := fun s _ => h s
+
+theorem se_fuelHere {P : Stop → Prop} : SE P fuelHere := by
+  intro s; show GoodE P s (Except.ok (s.rest.length + 1, s)); exact ⟨Nat.le_refl _, rfl, rfl⟩
+
+theorem se_readSome {P : Stop → Prop} (n : Nat) : SE P (readSome n) := by
+  intro s
+  unfold SEs readSome
+  split
+  · exact ⟨Nat.le_refl _, rfl, rfl⟩
+  · show (s.rest.drop n).length ≤ s.rest.length ∧ _
+    exact ⟨by simp [List.length_drop], rfl, rfl⟩
+
+theorem se_getcChecked {P : Stop → Prop} (hP : Adm P) : SE P getcChecked := by
+  unfold getcChecked
+  apply se_bind (se_readSome 1); intro got
+  split
+  · exact se_pure _
+  · exact se_ioErr hP
+
+theorem se_getcUnchecked {P : Stop → Prop} : SE P getcUnchecked := by
+  unfold getcUnchecked
+  apply se_bind (se_readSome 1); intro got
+  split <;> exact se_pure _
+
+theorem pnm_skipComment_ses {P : Stop → Prop} (hP : Adm P) : ∀ (fuel : Nat) (s : St), s.rest.length < fuel → SEs P (Pnm.skipComment fuel) s
+  | 0, s, h => by omega
+  | fuel + 1, s, h => by
+    unfold Pnm.skipComment
+    apply SEs.bind (se_getcChecked hP s)
+    intro c s1 h1 _ _
+    have := getcChecked_cons h1
+    split
+    · exact se_pure _ s1
+    · exact pnm_skipComment_ses hP fuel s1 (by omega)
+
+theorem se_readChar {P : Stop → Prop} (hP : Adm P) : SE P Pnm.readChar := by
+  intro s
+  unfold Pnm.readChar
+  apply SEs.bind (se_getcChecked hP s)
+  intro c s1 _ _ _
+  split
+  · apply SEs.bind (se_fuelHere s1)
+    intro fuel s2 h2 _ _
+    rw [fuelHere_eq] at h2
+    injection h2 with h2; injection h2 with hf hs; subst hs; subst hf
+    exact pnm_skipComment_ses hP _ s1 (by omega)
+  · exact se_pure _ s1
+
+theorem pnm_skipWs_ses {P : Stop → Prop} (hP : Adm P) : ∀ (k : Nat) (s : St), s.rest.length < k → SEs P (Pnm.skipWs k) s
+  | 0, s, h => by omega
+  | k + 1, s, h => by
+    unfold Pnm.skipWs
+    apply SEs.bind (se_readChar hP s)
+    intro c s1 h1 _ _
+    have := readChar_cons h1
+    split
+    · exact pnm_skipWs_ses hP k s1 (by omega)
+    · exact se_pure _ s1
+
+theorem pnm_digitsLoop_ses {P : Stop → Prop} (hP : Adm P) : ∀ (k c val : Nat) (s : St), s.rest.length < k → SEs P (Pnm.digitsLoop k c val) s
+  | 0, _, _, s, h => by omega
+  | k + 1, c, val, s, h => by
+    unfold Pnm.digitsLoop
+    dsimp only
+    split
+    · exact se_ioErr hP s
+    · apply SEs.bind (se_readChar hP s)
+      intro c1 s1 h1 _ _
+      have := readChar_cons h1
+      split
+      · exact pnm_digitsLoop_ses hP k _ _ s1 (by omega)
+      · exact se_pure _ s1
+
+theorem se_readInt {P : Stop → Prop} (hP : Adm P) : SE P Pnm.readInt := by
+  intro s
+  unfold Pnm.readInt
+  apply SEs.bind (se_fuelHere s)
+  intro f s0 h0 _ _
+  rw [fuelHere_eq] at h0
+  injection h0 with h0; injection h0 with hf hs; subst hs; subst hf
+  apply SEs.bind (pnm_skipWs_ses hP _ s (by omega))
+  intro c s1 _ _ _
+  split
+  · exact se_ioErr hP s1
+  · apply SEs.bind (se_fuelHere s1)
+    intro f s2 h2 _ _
+    rw [fuelHere_eq] at h2
+    injection h2 with h2; injection h2 with hf hs; subst hs; subst hf
+    exact pnm_digitsLoop_ses hP _ _ _ s1 (by omega)
+
+/-- PNM `read_header` on any bytes, any device: a header or `std::ios_base::failure`, nothing else -/
+theorem se_pnm_readHeader {P : Stop → Prop} (hP : Adm P) : SE P Pnm.readHeader := by
+  unfold Pnm.readHeader
+  apply se_bind (se_readChar hP); intro p
+  split
+  · exact se_ioErr hP
+  · apply se_bind (se_readChar hP); intro t
+    split
+    · exact se_ioErr hP
+    · dsimp only
+      apply se_bind (se_readInt hP); intro w
+      apply se_bind (se_readInt hP); intro h
+      split
+      · exact se_pure _
+      · apply se_bind (se_readInt hP); intro m
+        split
+        · exact se_ioErr hP
+        · exact se_pure _
+
+/-! fixed-size reads are checked by the file device -/
+
+theorem sef_readFixed {P : Stop → Prop} (hP : Adm P) (n : Nat) : SEf P (readFixed n) := by
+  intro s hs
+  unfold readFixed
+  apply SEs.bind (se_readSome n s)
+  intro got s1 _ _ hd
+  split
+  · apply SEs.bind
+    · show SEs P getSt s1
+      show GoodE P s1 (Except.ok (s1, s1)); exact ⟨Nat.le_refl _, rfl, rfl⟩
+    · intro st s2 h2 _ _
+      have h2' : (Except.ok (s1, s1) : Except Stop (St × St)) = Except.ok (st, s2) := h2
+      injection h2' with h2'; injection h2' with e1 e2; subst e1; subst e2
+      have : s1.dev = .file := hd.trans hs
+      rw [this]
+      exact se_ioErr hP s1
+  · exact se_pure _ s1
+
+theorem sef_readU8 {P : Stop → Prop} (hP : Adm P) : SEf P readU8 := by
+  unfold readU8; apply sef_bind (sef_readFixed hP 1); intro _; exact sef_of_se (se_pure _)
+theorem sef_readU16 {P : Stop → Prop} (hP : Adm P) : SEf P readU16 := by
+  unfold readU16; apply sef_bind (sef_readFixed hP 2); intro _; exact sef_of_se (se_pure _)
+theorem sef_readU32 {P : Stop → Prop} (hP : Adm P) : SEf P readU32 := by
+  unfold readU32; apply sef_bind (sef_readFixed hP 4); intro _; exact sef_of_se (se_pure _)
+
+/-- TARGA `read_header` on any bytes through the file device: a header or `std::ios_base::failure` -/
+theorem sef_tga_readHeader {P : Stop → Prop} (hP : Adm P) : SEf P Tga.readHeader := by
+  unfold Tga.readHeader
+  apply sef_bind (sef_readU8 hP); intro idl
+  dsimp only
+  apply sef_bind (sef_readU8 hP); intro cmt
+  apply sef_bind (sef_readU8 hP); intro it
+  apply sef_bind (sef_readU16 hP); intro _
+  apply sef_bind (sef_readU16 hP); intro cml
+  apply sef_bind (sef_readU8 hP); intro _
+  apply sef_bind (sef_readU16 hP); intro _
+  apply sef_bind (sef_readU16 hP); intro _
+  apply sef_bind (sef_readU16 hP); intro w
+  apply sef_bind (sef_readU16 hP); intro h
+  split
+  · exact sef_of_se (se_ioErr hP)
+  · apply sef_bind (sef_readU8 hP); intro bpp
+    split
+    · exact sef_of_se (se_ioErr hP)
+    · apply sef_bind (sef_readU8 hP); intro desc
+      repeat' (first | exact sef_of_se (se_ioErr hP) | exact sef_of_se (se_pure _) | split)
+
+
+/-- the stops BMP `read_header` can produce on the file device: a C++ exception, or the INT_MIN negation -/
+def BmpHdrStop (e : Stop) : Prop :=
+  IsErr e ∨ ∃ w, e = Stop.ub "negation-overflow@extension/io/bmp/detail/reader_backend.hpp:read_header" w
+theorem adm_bmpHdrStop : Adm BmpHdrStop := fun k => Or.inl ⟨k, rfl⟩
+
+/-- BMP `read_header` on any bytes through the file device: a header, `std::ios_base::failure`, or the one
+    undefined negation of `height == INT_MIN` -/
+theorem sef_bmp_readHeader : SEf BmpHdrStop Bmp.readHeader := by
+  have hP := adm_bmpHdrStop
+  unfold Bmp.readHeader
+  apply sef_bind (sef_readU16 hP); intro magic
+  split
+  · exact sef_of_se (se_ioErr hP)
+  · apply sef_bind (sef_readU32 hP); intro _
+    apply sef_bind (sef_readU16 hP); intro _
+    apply sef_bind (sef_readU16 hP); intro _
+    apply sef_bind (sef_readU32 hP); intro offset
+    apply sef_bind (sef_readU32 hP); intro hs
+    split
+    · apply sef_bind (sef_readU32 hP); intro w0
+      apply sef_bind (sef_readU32 hP); intro h0
+      dsimp only
+      split
+      · intro s _
+        show GoodE BmpHdrStop s (Except.error _)
+        exact Or.inr ⟨_, rfl⟩
+      · apply sef_bind (sef_readU16 hP); intro _
+        apply sef_bind (sef_readU16 hP); intro bpp
+        apply sef_bind (sef_readU32 hP); intro comp
+        apply sef_bind (sef_readU32 hP); intro _
+        apply sef_bind (sef_readU32 hP); intro _
+        apply sef_bind (sef_readU32 hP); intro _
+        apply sef_bind (sef_readU32 hP); intro nc
+        apply sef_bind (sef_readU32 hP); intro _
+        exact sef_of_se (se_pure _)
+    · split
+      · apply sef_bind (sef_readU16 hP); intro w
+        apply sef_bind (sef_readU16 hP); intro h
+        apply sef_bind (sef_readU16 hP); intro _
+        apply sef_bind (sef_readU16 hP); intro bpp
+        exact sef_of_se (se_pure _)
+      · split
+        · apply sef_bind (sef_readU32 hP); intro w0
+          apply sef_bind (sef_readU32 hP); intro h0
+          dsimp only
+          apply sef_bind (sef_readU16 hP); intro _
+          apply sef_bind (sef_readU16 hP); intro bpp
+          apply sef_bind (sef_readU32 hP); intro comp
+          apply sef_bind (sef_readU32 hP); intro _
+          apply sef_bind (sef_readU32 hP); intro _
+          apply sef_bind (sef_readU32 hP); intro _
+          apply sef_bind (sef_readU32 hP); intro nc
+          apply sef_bind (sef_readU32 hP); intro _
+          exact sef_of_se (se_pure _)
+        · exact sef_of_se (se_ioErr hP)
+
 end GilVerif.Lemmas.C11
